@@ -726,6 +726,17 @@ def fsproto_jobs(q, which):
     return jobs
 
 
+def design_jobs(module, cfgs_quick, cfgs_thorough, negatives, q):
+    """exhaustive TLC runs of a small design model (faithful configurations) and its negative controls"""
+    jobs = []
+    for c in (cfgs_quick if q else cfgs_quick + cfgs_thorough):
+        jobs.append({"name": "%s/%s" % (module, c), "kind": "mc", "module": module + ".tla", "cfg": c + ".cfg", "workers": 4})
+    for c, inv in negatives:
+        jobs.append({"name": "%s/%s(negative control)" % (module, c), "kind": "mc", "module": module + ".tla", "cfg": c + ".cfg", "workers": 2,
+                     "expect_violation": inv})
+    return jobs
+
+
 def commitwin_jobs(q, also=None):
     """fourth window family: a victim held inside its commit while others commit; then a crash (NfsLin.FinalCrash)"""
     jobs = []
@@ -788,6 +799,10 @@ def plan(prop, tier, seed, known):
         for i in range(n):
             jobs.append(seq_job("dirs%d" % i, seed * 100 + i, "dirs,names", 4 if q else 8, 250 if q else 400, av))
         jobs.append(probe_job(prop, av))
+        # the design model of the slot array (cookies, pages, updates between pages) and its assumption on real snapshots
+        jobs += design_jobs("DirSlots", ["DirSlots"], ["DirSlots_big"], [("DirSlots_compact", "Complete"), ("DirSlots_cookie", "NoDup")], q)
+        for i in range(1 if q else 8):
+            jobs.append(seq_job("dirslots%d" % i, seed * 100 + 50 + i, "dirs,names", 3 if q else 6, 150 if q else 300, av, disk=8000, extra=["-snapeach", "1"]))
     elif prop == "C04":
         n = 5 if q else 40
         for i in range(n):
@@ -814,6 +829,7 @@ def plan(prop, tier, seed, known):
             jobs.append(seq_job("reclaim%d" % i, seed * 100 + i, "data,recycle,dirs,mix", 4 if q else 8, 200 if q else 400, av,
                                 disk=8000, extra=["-snapeach", "7", "-deleteall"]))
         jobs.append(probe_job(prop, av))
+        jobs += design_jobs("Shrink", ["Shrink"], ["Shrink_big"], [("Shrink_reset", "NoOrphan"), ("Shrink_noresult", "Reclaimed")], q)
         for i in range(1 if q else 12):   # frees running concurrently with other operations, and crash points inside them
             jobs.append(conccrash_job("conccrash%d" % i, seed * 100 + 85 + i, 2 + i % 3, 3 if q else 6, 6 if q else 8, av, 60 if q else 150, 2 if q else 4))
     elif prop == "C10":
